@@ -578,6 +578,7 @@ impl Compiler {
                         (None, None) => {}
                     }
 
+                    self.compile_try_ends_for_loop_exit();
                     self.push_op(Jump, &[]);
                     self.push_loop_jump_placeholder()?;
 
@@ -593,6 +594,7 @@ impl Compiler {
                     if let Some(result_register) = loop_result_register {
                         self.push_op(SetNull, &[result_register]);
                     }
+                    self.compile_try_ends_for_loop_exit();
                     self.push_jump_back_op(JumpBack, &[], loop_start_ip)?;
 
                     CompileNodeOutput::none()
@@ -2134,6 +2136,18 @@ impl Compiler {
         }
     }
 
+    // `break` and `continue` jump out of any try blocks that are open in the loop's body,
+    // their catch points have to be cleared first (as at the end of the try block).
+    fn compile_try_ends_for_loop_exit(&mut self) {
+        let open_try_blocks = self
+            .frame()
+            .current_loop()
+            .map_or(0, |loop_info| loop_info.open_try_blocks);
+        for _ in 0..open_try_blocks {
+            self.push_op(Op::TryEnd, &[0]);
+        }
+    }
+
     fn compile_try_expression(
         &mut self,
         try_expression: &AstTry,
@@ -2162,7 +2176,9 @@ impl Compiler {
             _ => ResultRegister::None,
         };
 
+        self.frame_mut().push_try_block();
         self.compile_node(*try_block, ctx.with_register(try_result_register))?;
+        self.frame_mut().pop_try_block();
 
         // Clear the catch point at the end of the try block
         // - if the end of the try block has been reached then the catch block is no longer needed.
